@@ -36,6 +36,11 @@ def plan(tier):
         for tk in space.tasks(n, k, ALPHAS[a], split):
             tk.update(alpha=a, pol=pol, nblocks=nb)
             t.append(tk)
+    from vmc import history
+
+    for s in HIST_STARTS:
+        for op in history.menu(history.start(s), 'nocomp'):
+            t.append({'kind': 'hist', 'start': s, 'prefix': [op], 'depth': 2 if tier == 'quick' else 3})
     return t
 
 
@@ -43,13 +48,13 @@ def describe(tier):
     return {
         'rule': 'E1: every circuit of F(n>=1,k,A) x output policy x block placement (no block; one block over every '
         'non-empty subset of gate nodes; with nblocks=2 every ordered pair of such blocks) -> into_bench(), and '
-        'into_graphviz_digraph(as_bench=True) once per circuit; for last-gate outputs without blocks a second conversion after removing and re-adding the rewritten sink gate. KO family = constants carrying 1-2 operands. '
+        'into_graphviz_digraph(as_bench=True) once per circuit; for last-gate outputs without blocks a second conversion after removing and re-adding the rewritten sink gate. KO family = constants carrying 1-2 operands. E2 (no state merging): every history of public mutator calls (the C02 menu without compositions: construction, removal, renaming, interface, replace_inputs, blocks, into_bench, copy, replace_subcircuit) up to the stated length from 5 start states (incl. one holding every non-bench shape), each followed by into_bench(), compared with the netlist just before the conversion. '
         'distinct = distinct (types before, helper gates added) outcomes.',
         'bounds': {
             'quick': 'F(1,<=2,FULL), F(2,1,FULL) all policies + block pairs; F(2,2,FULL), F(3,1,FULL), F(2,2,KO) core '
             'policies + single blocks; F(2,3,C+L+K+AND) last-gate output, no blocks',
             'thorough': '+ F(2,2,FULL) all policies + block pairs, F(3,2,FULL) core, F(2,3,C+L+K+AND) core + pairs, '
-            'F(2,3,FULL\\S3) and F(2,3,KO) last-gate output',
+            'F(2,3,FULL\\S3) and F(2,3,KO) last-gate output; histories of length <= 3',
         }[tier],
         'exhaustive': True,
         'assumptions': ['vmc.refmodel evaluator and well-formedness predicate'],
@@ -195,7 +200,67 @@ def check_circuit(n, gates, acc, pol, nblocks):
     acc.sample({**space.spec_json(n, gates, pols[-1]), 'blocks': places[-1]})
 
 
+class _NeverSeen:
+    """No state merging: two histories reaching the same netlist are both continued (a conversion must not
+    depend on how the circuit came to be)."""
+
+    def __contains__(self, k):
+        return False
+
+    def add(self, k):
+        pass
+
+
+HIST_STARTS = ('S1', 'S2', 'S4', 'S5', 'S6')
+
+
+def hist_monitor(c, start_name, hist, acc):
+    """The state reached by `hist` is converted; everything C14 demands is checked against the netlist as it
+    was just before the conversion."""
+    case = {'start': start_name, 'history': hist, 'then': 'into_bench'}
+    try:
+        net = refmodel.abstract(c)
+        ref = net.tables()
+    except Exception:  # noqa: BLE001
+        return
+    if not net.inputs:
+        acc.count('state_without_inputs_skipped')  # the property speaks about circuits with at least one input
+        return
+    acc.transitions += 1
+    try:
+        r = c.into_bench()
+    except Exception as e:  # noqa: BLE001
+        acc.violation(f'into_bench/raises-{type(e).__name__}', case, repr(e)[:200], {'history': True})
+        return
+    rnet = refmodel.abstract(c)
+    if r is not c:
+        acc.violation('into_bench/does-not-return-self', case, '', {'history': True})
+    if rnet.inputs != net.inputs or rnet.outputs != net.outputs:
+        acc.violation('into_bench/interface-changed', case, f'{rnet.inputs} {rnet.outputs}', {'history': True})
+        return
+    bad = sorted((l, t) for l, (t, _) in rnet.gates.items() if t not in BENCH_TYPES)
+    if bad:
+        acc.violation('into_bench/non-bench-type-remains', case, str(bad[:3]), {'history': True})
+    probs = refmodel.wellformed(c)
+    if probs:
+        acc.violation('into_bench/ill-formed', case, probs[:3], {'history': True})
+        return
+    rt = rnet.tables()
+    for l in net.gates:
+        if l not in rt or rt[l] != ref[l]:
+            acc.violation('into_bench/function-changed', case, f'gate {l}', {'history': True})
+            break
+    for name, (bi, bg, bo) in net.blocks.items():
+        if name not in rnet.blocks or [g for g in rnet.blocks[name][1] if g in net.gates] != list(bg):
+            acc.violation('into_bench/block-members-lost', case, name, {'history': True})
+    acc.outcome('conv', ('hist', tuple(sorted({t for t, _ in net.gates.values()} - BENCH_TYPES)), len(rnet.gates) - len(net.gates)))
+
+
 def run_task(task, acc):
+    if task.get('kind') == 'hist':
+        from vmc import history
+
+        return history.explore(task['start'], task['prefix'], task['depth'], acc, hist_monitor, level='nocomp', seen=_NeverSeen())
     alpha = ALPHAS[task['alpha']]
     for gates in space.enum_gates(task['n'], task['k'], alpha, space.prefix_from_task(task)):
         check_circuit(task['n'], gates, acc, task['pol'], task['nblocks'])
@@ -204,6 +269,10 @@ def run_task(task, acc):
 def replay(case, acc):
     if 'task' in case:
         return run_task(case['task'], acc)
+    if 'history' in case:
+        from vmc import history
+
+        return hist_monitor(history.replay(case['start'], case['history']), case['start'], case['history'], acc)
     n, gates, outs = space.spec_from_json(case)
     if case.get('graphviz'):
         return check_graphviz(n, gates, outs, acc)
